@@ -713,6 +713,10 @@ class Program:
                 lc = ast.ListComp(elt=e.args[0].elt, generators=e.args[0].generators)
                 v_ = self.fold(ast.copy_location(lc, e), m, cls, local, depth + 1)
                 return frozenset(v_) if fname == "frozenset" else tuple(v_)
+            if fname in ("tuple", "frozenset") and len(e.args) == 1 and not e.keywords:
+                a = F(e.args[0])          # frozenset((A, B)) / tuple([A, B]): an immutable constant collection
+                if isinstance(a, (tuple, list, frozenset, range, bytes)) and len(a) <= 512:
+                    return frozenset(a) if fname == "frozenset" else tuple(a)
             if fname == "range" and 1 <= len(e.args) <= 3 and not e.keywords:
                 a = [F(x) for x in e.args]
                 if all(isinstance(x, int) and not isinstance(x, bool) for x in a) and (len(a) < 3 or a[2] != 0):
